@@ -605,25 +605,164 @@ Proof.
   - unfold g'. eapply jf_ok_replace; eauto; simpl; destruct o; try discriminate; reflexivity.
 Qed.
 
-Lemma jinv_patch_handler n X fs c pre a b cc d a' b' c' d' post :
+(* the part of the invariant about jumps / loops survives a rewrite of the operands of a PushExcHandler, and
+   a position of that handler may leave the pending list *)
+Lemma jinv_patch_handler_jumps n X X' fs c pre a b cc d a' b' c' d' post q :
   let g := pre ++ (OpPushExcHandler, [a; b; cc; d]) :: post in
   let g' := pre ++ (OpPushExcHandler, [a'; b'; c'; d']) :: post in
-  jinv n X fs c g -> jinv n X fs c g'.
+  jinv n X fs c g -> Permutation X ((length (flat pre) + q) :: X') -> (q = 1 \/ q = 3) ->
+  (forall k o a0 b0, nth_error g' k = Some (o, [a0; b0]) -> is_jump16 o = true ->
+      bnd g' (pos g' k + 3 + N.to_nat (u16 a0 b0)) \/ In (pos g' k + 1) (concat (k_breaks c)) \/ In (pos g' k + 1) X') /\
+  (forall k a0 b0, nth_error g' k = Some (OpLoop, [a0; b0]) ->
+      N.to_nat (u16 a0 b0) <= pos g' k + 3 /\ bnd g' (pos g' k + 3 - N.to_nat (u16 a0 b0))) /\
+  Forall (fun L => bnd g' (fst (fst L))) (k_loops c) /\ jf_ok g' /\ Forall2 sp g g'.
 Proof.
-  intros g g' [].
+  intros g g' J HP Hq. destruct J.
   assert (Hsp : Forall2 sp g g').
   { apply Forall2_app. apply F2sp_refl. constructor; [|apply F2sp_refl]. right. simpl. auto. }
-  constructor; auto.
+  assert (Hn0 : nth_error g (length pre) = Some (OpPushExcHandler, [a; b; cc; d])).
+  { unfold g. rewrite nth_error_app2, Nat.sub_diag by lia. reflexivity. }
+  split; [|split; [|split; [|split]]]; auto.
   - intros k o' a0 b0 H1 H2. rewrite (F2sp_pos _ _ Hsp).
     apply (nth_error_replace pre (OpPushExcHandler, [a; b; cc; d])) in H1. destruct H1 as [[Hk H1]|[Hk H1]].
     + inversion H1.
     + fold g in H1. destruct (j_jumps0 k o' a0 b0 H1 H2) as [?|[?|Hin]]; auto. left. eapply bnd_sp; eauto.
+      apply (Permutation_in _ HP) in Hin. destruct Hin as [Hp|Hin]; auto. exfalso.
+      assert (Hpp : pos g (length pre) = length (flat pre)) by (unfold g; apply pos_split).
+      destruct Hq as [-> | ->].
+      * apply Hk. apply (pos_inj g). apply Nat.lt_le_incl. eapply nth_error_lt; eauto.
+        unfold g; rewrite app_length; simpl; lia. lia.
+      * apply (pos_gap g (length pre) k _ 2 Hn0); simpl; try lia. apply Nat.lt_le_incl. eapply nth_error_lt; eauto.
   - intros k a0 b0 H1. rewrite (F2sp_pos _ _ Hsp).
     apply (nth_error_replace pre (OpPushExcHandler, [a; b; cc; d])) in H1. destruct H1 as [[Hk H1]|[Hk H1]].
     + inversion H1.
     + fold g in H1. destruct (j_loops0 k a0 b0 H1). split; auto. eapply bnd_sp; eauto.
   - eapply Forall_impl; [|eauto]. intros. eapply bnd_sp; eauto.
   - unfold g'. eapply jf_ok_replace; eauto; reflexivity.
+Qed.
+
+Lemma nodup_perm_head {A} (l X X' : list A) p :
+  NoDup (l ++ X) -> Permutation X (p :: X') -> NoDup (l ++ X') /\ ~ In p (l ++ X') /\
+  (forall x, In x (l ++ X') -> In x (l ++ X)).
+Proof.
+  intros Hn HP.
+  assert (HPP : Permutation (l ++ X) (p :: l ++ X')).
+  { eapply Permutation_trans. apply Permutation_app_head. exact HP. apply Permutation_sym, Permutation_middle. }
+  pose proof (Permutation_NoDup HPP Hn) as Hn'. inversion Hn'; subst. split; auto. split; auto.
+  intros x Hx. eapply Permutation_in. apply Permutation_sym. exact HPP. right; auto.
+Qed.
+
+(* first operand of a PushExcHandler := distance to the current end of the code *)
+Lemma jinv_patch_h1 n X X' fs c pre a b cc d lo hi post :
+  let g := pre ++ (OpPushExcHandler, [a; b; cc; d]) :: post in
+  let g' := pre ++ (OpPushExcHandler, [lo; hi; cc; d]) :: post in
+  jinv n X fs c g ->
+  N.to_nat (u16 lo hi) = length (flat g) - (length (flat pre) + 5) ->
+  Permutation X ((length (flat pre) + 1) :: X') -> In (length (flat pre) + 3) X' ->
+  jinv n X' (FCatch (length (flat pre) + 1) (length (flat g)) :: fs) c g'.
+Proof.
+  intros g g' J Hv HP H3.
+  destruct (jinv_patch_handler_jumps n X X' fs c pre a b cc d lo hi cc d post 1 J HP (or_introl eq_refl))
+    as (K1 & K2 & K3 & K4 & Hsp).
+  fold g in Hsp. fold g' in K1, K2, K3, K4, Hsp.
+  pose proof (jinv_hcore _ _ _ _ _ J) as HC. hc HC. destruct J.
+  assert (Hl : length (flat g') = length (flat g)) by (symmetry; apply F2sp_len; auto).
+  assert (Hfg : length (flat g) = length (flat pre) + 5 + length (flat post)).
+  { unfold g. rewrite flat_app, flat_cons, !app_length. simpl. lia. }
+  assert (Hn0 : nth_error g (length pre) = Some (OpPushExcHandler, [a; b; cc; d])).
+  { unfold g. rewrite nth_error_app2, Nat.sub_diag by lia. reflexivity. }
+  assert (Hpp : pos g (length pre) = length (flat pre)) by (unfold g; apply pos_split).
+  assert (Hlen : length pre < length g) by (unfold g; rewrite app_length; simpl; lia).
+  assert (Hrep : forall k y, nth_error g' k = Some y ->
+            (k = length pre /\ y = (OpPushExcHandler, [lo; hi; cc; d])) \/ (k <> length pre /\ nth_error g k = Some y)).
+  { intros k y Hy. unfold g' in Hy. apply (nth_error_replace pre (OpPushExcHandler, [a; b; cc; d])) in Hy. exact Hy. }
+  assert (Hend : bnd g' (length (flat g'))) by apply bnd_end.
+  clearbody g g'.
+  destruct (nodup_perm_head _ _ _ _ N1 HP) as (D1 & D2 & D3).
+  assert (Hk0 : forall k x, nth_error g k = Some x -> pos g k + 1 = length (flat pre) + 1 -> k = length pre).
+  { intros k x Hx Hp. apply (pos_inj g).
+    - apply Nat.lt_le_incl. eapply nth_error_lt; eauto.
+    - apply Nat.lt_le_incl. exact Hlen.
+    - rewrite Hpp. apply Nat.add_cancel_r in Hp. exact Hp. }
+  constructor; auto.
+  - intros x Hx. rewrite Hl. auto.
+  - (* h1 *) intros k a0 b0 c0 d0 H. rewrite (F2sp_pos _ _ Hsp).
+    apply Hrep in H. destruct H as [[Hk H]|[Hk H]].
+    + inversion H; subst. left. rewrite Hpp, Hv. replace (length (flat pre) + 5 + (length (flat g) - (length (flat pre) + 5))) with (length (flat g')) by lia.
+      exact Hend.
+    + destruct (N3 _ _ _ _ _ H) as [?|Hin]. left; eapply bnd_sp; eauto.
+      apply (Permutation_in _ HP) in Hin. destruct Hin as [Hp|Hin]; auto. exfalso. apply Hk. eapply Hk0; eauto.
+  - (* h2 *) intros k a0 b0 c0 d0 H. rewrite (F2sp_pos _ _ Hsp).
+    apply Hrep in H. destruct H as [[Hk H]|[Hk H]].
+    + inversion H; subst. right. rewrite Hpp. exact H3.
+    + destruct (N4 _ _ _ _ _ H) as [?|Hin]. left; eapply bnd_sp; eauto.
+      apply (Permutation_in _ HP) in Hin. destruct Hin as [Hp|Hin]; auto. exfalso.
+      apply (pos_gap g k (length pre) _ 2 H); simpl; try lia.
+  - (* catch *) simpl. intros p t [E|Hin] k a0 b0 c0 d0 H Hp; rewrite (F2sp_pos _ _ Hsp) in *.
+    + inversion E; subst p t.
+      apply Hrep in H. destruct H as [[Hk H]|[Hk H]].
+      * inversion H; subst. rewrite Hpp, Hv. lia.
+      * exfalso. apply Hk. eapply Hk0; eauto.
+    + apply (nth_error_replace pre (OpPushExcHandler, [a; b; cc; d])) in H. destruct H as [[Hk H]|[Hk H]].
+      * exfalso. subst k. destruct (N6 _ _ Hin) as [Hni _]. apply Hni. apply in_or_app. right.
+        eapply Permutation_in. apply Permutation_sym. exact HP. left. lia.
+      * eapply N5; eauto.
+  - (* cfresh *) simpl. intros p t [E|Hin].
+    + inversion E; subst p t. split; auto. rewrite Hl. lia.
+    + destruct (N6 _ _ Hin) as [A B]. split. intros Hx. apply A. auto. rewrite Hl. auto.
+Qed.
+
+(* second operand := distance from the catch start to the current end of the code *)
+Lemma jinv_patch_h2 n X X' fs c pre a b cc d lo hi post cs :
+  let g := pre ++ (OpPushExcHandler, [a; b; cc; d]) :: post in
+  let g' := pre ++ (OpPushExcHandler, [a; b; lo; hi]) :: post in
+  jinv n X fs c g ->
+  In (length (flat pre) + 1, cs) (cof fs) ->
+  N.to_nat (u16 lo hi) = length (flat g) - cs ->
+  Permutation X ((length (flat pre) + 3) :: X') ->
+  jinv n X' fs c g'.
+Proof.
+  intros g g' J Hc Hv HP.
+  destruct (jinv_patch_handler_jumps n X X' fs c pre a b cc d a b lo hi post 3 J HP (or_intror eq_refl))
+    as (K1 & K2 & K3 & K4 & Hsp).
+  fold g in Hsp. fold g' in K1, K2, K3, K4, Hsp.
+  pose proof (jinv_hcore _ _ _ _ _ J) as HC. hc HC. destruct J.
+  assert (Hl : length (flat g') = length (flat g)) by (symmetry; apply F2sp_len; auto).
+  assert (Hn0 : nth_error g (length pre) = Some (OpPushExcHandler, [a; b; cc; d])).
+  { unfold g. rewrite nth_error_app2, Nat.sub_diag by lia. reflexivity. }
+  assert (Hpp : pos g (length pre) = length (flat pre)) by (unfold g; apply pos_split).
+  assert (Hlen : length pre < length g) by (unfold g; rewrite app_length; simpl; lia).
+  assert (Hrep : forall k y, nth_error g' k = Some y ->
+            (k = length pre /\ y = (OpPushExcHandler, [a; b; lo; hi])) \/ (k <> length pre /\ nth_error g k = Some y)).
+  { intros k y Hy. unfold g' in Hy. apply (nth_error_replace pre (OpPushExcHandler, [a; b; cc; d])) in Hy. exact Hy. }
+  assert (Hend : bnd g' (length (flat g'))) by apply bnd_end.
+  clearbody g g'.
+  destruct (nodup_perm_head _ _ _ _ N1 HP) as (D1 & D2 & D3).
+  assert (Hcs : length (flat pre) + 5 + N.to_nat (u16 a b) = cs) by (rewrite <- Hpp; eapply N5; eauto; lia).
+  assert (Hb1 : bnd g cs).
+  { destruct (N3 _ _ _ _ _ Hn0) as [Hb|Hin]. rewrite Hpp, Hcs in Hb. auto.
+    exfalso. destruct (N6 _ _ Hc) as [Hni _]. apply Hni. apply in_or_app. right. rewrite Hpp in Hin. exact Hin. }
+  assert (Hcsle : cs <= length (flat g)). { destruct Hb1 as (k & _ & <-). apply pos_le. }
+  constructor; auto.
+  - intros x Hx. rewrite Hl. auto.
+  - (* h1 *) intros k a0 b0 c0 d0 H. rewrite (F2sp_pos _ _ Hsp).
+    apply Hrep in H. destruct H as [[Hk H]|[Hk H]].
+    + inversion H; subst. left. rewrite Hpp, Hcs. eapply bnd_sp; eauto.
+    + destruct (N3 _ _ _ _ _ H) as [?|Hin]. left; eapply bnd_sp; eauto.
+      apply (Permutation_in _ HP) in Hin. destruct Hin as [Hp|Hin]; auto. exfalso.
+      apply (pos_gap g (length pre) k _ 2 Hn0); simpl; try lia. apply Nat.lt_le_incl. eapply nth_error_lt; eauto.
+  - (* h2 *) intros k a0 b0 c0 d0 H. rewrite (F2sp_pos _ _ Hsp).
+    apply Hrep in H. destruct H as [[Hk H]|[Hk H]].
+    + inversion H; subst. left. rewrite Hpp, Hcs, Hv.
+      replace (cs + (length (flat g) - cs)) with (length (flat g')) by lia. exact Hend.
+    + destruct (N4 _ _ _ _ _ H) as [?|Hin]. left; eapply bnd_sp; eauto.
+      apply (Permutation_in _ HP) in Hin. destruct Hin as [Hp|Hin]; auto. exfalso. apply Hk.
+      apply (pos_inj g); try lia. apply Nat.lt_le_incl. eapply nth_error_lt; eauto.
+  - (* catch *) intros p t Hin k a0 b0 c0 d0 H Hp. rewrite (F2sp_pos _ _ Hsp) in *.
+    apply Hrep in H. destruct H as [[Hk H]|[Hk H]].
+    + inversion H; subst. eapply N5; eauto.
+    + eapply N5; eauto.
+  - (* cfresh *) intros p t Hin. destruct (N6 _ _ Hin) as [A B]. split. intros Hx. apply A. auto. rewrite Hl. auto.
 Qed.
 
 (* ------------------------------------------------------------------ *)
